@@ -90,6 +90,12 @@ def _named_local(view, op, depth=8):
             return "const"
         if op.get("o") not in ("copy", "move"):
             return "?"
+        if op["p"] == [["f", 0]] and not view.local_name(op["l"]):
+            d = view.single_def(op["l"])
+            if d is not None and d[1] != "term" and d[2]["rv"]["r"] == "bin" and d[2]["rv"]["op"].endswith("WithOverflow"):
+                rv = d[2]["rv"]
+                return "%s(%s,%s)" % (rv["op"][:-len("WithOverflow")], _named_local(view, rv["a"], depth),
+                                      _named_local(view, rv["b"], depth))
         if op["p"]:
             base = view.local_name(op["l"]) or "_"
             for e in op["p"]:
@@ -165,6 +171,9 @@ def local_sites(view):
     for s in out:
         if s.kind == "assert:BoundsCheck":
             d = "[%s]" % _named_local(view, s.term["index"])
+        elif s.kind in ("assert:Overflow", "assert:OverflowNeg"):
+            d = "(%s:%s%s)" % (s.term.get("op", "Neg"), _named_local(view, s.term["a"]),
+                               ("," + _named_local(view, s.term["b"])) if "b" in s.term else "")
         elif s.kind.startswith("assert:"):
             d = ""
         elif s.kind == "diverge":
